@@ -363,6 +363,14 @@ def main(run):
         "listing and is not listed; a filter without '=' selects nothing, one with an empty name all",
         "filter matching looks at the first attribute of that name in link_attr order (last added)"]
     run.prove()
+    if run.tier == "thorough" and getattr(run, "proof_broken", None) is None:
+        # independent re-check of the compiled proofs by the stand-alone checker
+        rc, out = vlib.sh(["coqchk", "-silent", "-o", "-Q", ".", "LibcoapV", "LibcoapV.Properties_C20"],
+                          cwd=vlib.COQ, timeout=1500, check=False)
+        ok = rc == 0 and "* Axioms: <none>" in out and "type-in-type: <none>" in out
+        run.cov["coqchk"] = "ok: axioms <none>" if ok else "FAILED"
+        if not ok:
+            run.violation("coqchk does not accept Properties_C20", out[-4000:], tag="coqchk", no_input=True)
     model = vlib.build_model()
     drv = vlib.build_driver("h_link", ["h_link.c"])
     r = tie.rng_for(run, "c20")
